@@ -1464,6 +1464,19 @@ func (g *G) genFunc(i int) *Func {
 		}
 	}
 	if r.Chance(1, 8) {
+		// plain three-clause loops whose init is NOT a ':=' (an assignment, a call) nested in
+		// compound statements that do not yield either: they stay native, init included
+		p0 := "1"
+		if len(f.Params) > 0 {
+			p0 = f.Params[0]
+		}
+		id := g.id()
+		t1, t2, t3, t4, t5 := g.nextTag(), g.nextTag(), g.nextTag(), g.nextTag(), g.nextTag()
+		text := fmt.Sprintf("j%[1]d := 7\nif %[2]s >= -5 {\n\tfor j%[1]d = 0; j%[1]d < 2; j%[1]d++ {\n\t\tvrt.E(%[3]d, j%[1]d)\n\t}\n}\nswitch {\ndefault:\n\tfor vrt.E(%[4]d); j%[1]d < 4; j%[1]d++ {\n\t\tvrt.E(%[5]d, j%[1]d)\n\t}\n}\nfor o%[1]d := 0; o%[1]d < 2; o%[1]d++ {\n\tfor j%[1]d = o%[1]d; j%[1]d < 2; j%[1]d++ {\n\t\tvrt.E(%[6]d, j%[1]d)\n\t}\n}\n{\n\tfor j%[1]d += 10; j%[1]d < 13; j%[1]d++ {\n\t}\n}\nvrt.E(%[7]d, j%[1]d)", id, p0, t1, t2, t3, t4, t5)
+		f.Body = append([]*S{{K: SRaw, ID: id, Src: text}}, f.Body...)
+		g.mark("plain_loops_with_non_define_init_nested_in_plain_compound_statements")
+	}
+	if r.Chance(1, 8) {
 		// a local variable that SHADOWS a predeclared identifier (nil, true, false, iota, len,
 		// string), updated between yields of it that stand alone in a thunk: first statement
 		// of a loop body, directly behind a yielding if / switch
